@@ -162,13 +162,20 @@ theorem typeElem_sites (t : Reflect.RT) (h : t.kind = .ptr) : ∃ e, Reflect.tEl
   | struct _ => simp [Reflect.RT.kind] at h
   | other => simp [Reflect.RT.kind] at h
 
+/-- `Kind`, `Implements`, `PtrTo`, `New` on the types a decode hook receives never panic: they panic
+only for the nil `reflect.Type`, and mapstructure passes `from.Type()` / `to.Type()`. -/
+theorem hookTypeCalls_sites (f t : Reflect.RT) : Reflect.hookTypeCalls (some f) (some t) = .ok () := rfl
+
+/-- …and a nil Type would panic: the hypothesis is needed. -/
+theorem hookTypeCalls_nil_witness (f : Reflect.RT) : (Reflect.hookTypeCalls (some f) none).isPanic = true := rfl
+
 /-- Every theorem of this module the inventory cites exists. -/
 theorem cited_sites_exist :
     (NoPanic.Inventory.citedBy "C07Sites").all
       (· ∈ thm_names% [Kit.C07.aeskw_wrap_sites, Kit.C07.aeskw_unwrap_sites, Kit.C07.arrXor_sites,
         Kit.C07.arrConcat_sites, Kit.C07.decodeString_reflect_sites, Kit.C07.decodeMetadata_reflect_sites,
         Kit.C07.resolveAliases_reflect_sites, Kit.C07.newAESCBCAEAD_sites, Kit.C07.growDst_sites,
-        Kit.C07.verifyEd25519_sites, Kit.C07.typeElem_sites, Kit.C07.hmacTag_sites, Kit.C07.unwrapIface_terminates]) = true := by
+        Kit.C07.verifyEd25519_sites, Kit.C07.typeElem_sites, Kit.C07.hmacTag_sites, Kit.C07.unwrapIface_terminates, Kit.C07.hookTypeCalls_sites]) = true := by
   decide +kernel
 
 end Kit.C07
